@@ -1097,3 +1097,110 @@ def strip_diagnostics(modules):
         m.tree = t.visit(m.tree)
         n += t.n
     return n
+
+
+# ----------------------------------------------------------------------------------------------- local aliases of attribute chains
+
+def _chain(e):
+    """('self', 'a', 'b') for the attribute chain self.a.b, or None"""
+    parts = []
+    while isinstance(e, ast.Attribute):
+        parts.append(e.attr)
+        e = e.value
+    if isinstance(e, ast.Name):
+        return tuple([e.id] + parts[::-1])
+    return None
+
+
+def propagate_attribute_aliases(modules):
+    """`q = self.queue` (also as one element of a tuple assignment), bound exactly once, at the top level of the function body before any use, where the
+    function never assigns to self.queue or a prefix of it and never rebinds `self`: every later `q` is `self.queue`.  The alias is written out and the
+    binding dropped, so that rules about `self.queue.append(..)` see the same calls however the code abbreviates them.  (An alias of an attribute that the
+    function itself re-assigns is left alone: it keeps the *old* object, which is not the same thing.)"""
+    log = []
+    for m in modules.values():
+        for fn in [n for n in ast.walk(m.tree) if isinstance(n, ast.FunctionDef)]:
+            params = {a.arg for a in fn.args.posonlyargs + fn.args.args + fn.args.kwonlyargs}
+            if fn.args.vararg:
+                params.add(fn.args.vararg.arg)
+            if fn.args.kwarg:
+                params.add(fn.args.kwarg.arg)
+            own = list(_shallow_fn(fn))
+            stores = {}
+            for n in own:
+                if isinstance(n, ast.Name) and isinstance(n.ctx, (ast.Store, ast.Del)):
+                    stores[n.id] = stores.get(n.id, 0) + 1
+            # attribute chains assigned anywhere in the function (including nested functions, which may run in between)
+            written = set()
+            for n in ast.walk(fn):
+                if isinstance(n, ast.Attribute) and isinstance(n.ctx, (ast.Store, ast.Del)):
+                    c = _chain(n)
+                    if c:
+                        written.add(c)
+            cands = {}
+            for i, st in enumerate(fn.body):
+                if not isinstance(st, ast.Assign) or len(st.targets) != 1:
+                    continue
+                t, v = st.targets[0], st.value
+                pairs = []
+                if isinstance(t, ast.Name):
+                    pairs = [(t, v)]
+                elif isinstance(t, ast.Tuple) and isinstance(v, ast.Tuple) and len(t.elts) == len(v.elts) and all(isinstance(x, ast.Name) for x in t.elts):
+                    pairs = list(zip(t.elts, v.elts))
+                for tn, vv in pairs:
+                    c = _chain(vv)
+                    if not (isinstance(vv, ast.Attribute) and c and c[0] in params and len(c) >= 2):
+                        continue
+                    if stores.get(tn.id, 0) != 1 or tn.id in params or stores.get(c[0], 0):
+                        continue
+                    if any(w[:len(c)] == c or c[:len(w)] == w for w in written):
+                        continue
+                    # the name is not read before this statement, and nested functions do not rebind it
+                    before = [n for s0 in fn.body[:i] for n in ast.walk(s0) if isinstance(n, ast.Name) and n.id == tn.id]
+                    nested_store = [n for d in ast.walk(fn) if d is not fn and isinstance(d, (ast.FunctionDef, ast.Lambda)) for n in ast.walk(d)
+                                    if (isinstance(n, ast.Name) and n.id == tn.id and isinstance(n.ctx, ast.Store)) or (isinstance(n, ast.arg) and n.arg == tn.id)]
+                    if before or nested_store:
+                        continue
+                    cands[tn.id] = (st, vv)
+            if not cands:
+                continue
+
+            class Sub(ast.NodeTransformer):
+                def visit_Name(self, n):
+                    if isinstance(n.ctx, ast.Load) and n.id in cands:
+                        return ast.copy_location(copy.deepcopy(cands[n.id][1]), n)
+                    return n
+            new_body = []
+            for st in fn.body:
+                hit = [k for k, (s0, _v) in cands.items() if s0 is st]
+                if hit:
+                    t, v = st.targets[0], st.value
+                    if isinstance(t, ast.Name):
+                        continue
+                    keep = [(a, b) for a, b in zip(t.elts, v.elts) if a.id not in cands]
+                    if not keep:
+                        continue
+                    if len(keep) == 1:
+                        st2 = ast.Assign(targets=[keep[0][0]], value=Sub().visit(keep[0][1]))
+                    else:
+                        st2 = ast.Assign(targets=[ast.Tuple(elts=[a for a, _b in keep], ctx=ast.Store())], value=ast.Tuple(elts=[Sub().visit(b) for _a, b in keep], ctx=ast.Load()))
+                    ast.copy_location(st2, st)
+                    new_body.append(st2)
+                    continue
+                new_body.append(Sub().visit(st))
+            fn.body = new_body or [ast.Pass()]
+            ast.fix_missing_locations(fn)
+            log.append(('%s.%s' % (m.name, fn.name), [], 'local aliases written out: %s' % ', '.join('%s = %s' % (k, ast.unparse(v)) for k, (_s, v) in sorted(cands.items()))))
+    return log
+
+
+def _shallow_fn(fn):
+    """the nodes of fn's own body (not of functions or lambdas nested in it)"""
+    todo = list(fn.body)
+    while todo:
+        n = todo.pop()
+        yield n
+        for ch in ast.iter_child_nodes(n):
+            if isinstance(ch, (ast.FunctionDef, ast.AsyncFunctionDef, ast.Lambda, ast.ClassDef)):
+                continue
+            todo.append(ch)
